@@ -5,7 +5,7 @@ usage: tools/run_seeded.py [name ...]   (default: all)   env: SEED_PAR (parallel
 import json, os, subprocess, sys, shutil, concurrent.futures as cf, re, time
 V = "/verif"
 # which checks to run for a change seeded against property X (the property itself + closely related ones)
-ALSO = {"C01": ["C01", "C11"], "C02": ["C02", "C01"], "C03": ["C03"], "C04": ["C04", "C10"], "C06": ["C06"], "C07": ["C07"], "C08": ["C08"], "C09": ["C09"],
+ALSO = {"C01": ["C01", "C11"], "C02": ["C02", "C01"], "C03": ["C03"], "C04": ["C04", "C10"], "C06": ["C06"], "C07": ["C07"], "C08": ["C08", "C02"], "C09": ["C09"],
         "C10": ["C10", "C04"], "C11": ["C11", "C01"], "C12": ["C12", "C01"], "C13": ["C13", "C12"], "C14": ["C14", "C09"], "C16": ["C16"]}
 
 def run_one(name):
@@ -22,7 +22,7 @@ def run_one(name):
             return res
         for chk in ALSO.get(prop, [prop]):
             env = dict(os.environ, VERIF_REPO=wt, VERIF_WORK="/tmp/seedwt/work-%s" % name, VERIF_EVIDENCE_DIR="/tmp/seedwt/ev-%s" % name,
-                       VERIF_JOBS=os.environ.get("SEED_JOBS", "5"), VERIF_MAX_REPLAY="2")
+                       VERIF_JOBS=os.environ.get("SEED_JOBS", "5"))
             t0 = time.time()
             p = subprocess.run([os.path.join(V, "check"), chk, "--tier", "quick"], cwd=V, env=env, capture_output=True, text=True)
             out = p.stdout + p.stderr
